@@ -93,7 +93,7 @@ def judge(job):
 
 
 def run(ctx):
-    c14.run_with(ctx, judge, "Non-trivial = simplify() ran and removed at least one unknown.")
+    c14.run_with(ctx, judge, "Non-trivial = simplify() ran and removed at least one unknown.", anchored=False)
     ctx.assumptions.append("unknowns = states + algebraic states (scalars); equations = entries of dae_residual_function's output")
     ctx.assumptions.append("a non-'free variable' exception raised by simplify() itself (a refused option combination) is not judged")
 
